@@ -253,7 +253,7 @@ namespace vh {
                 }
             }
         }
-        sim_dump_trace(tfd, 400);
+        sim_dump_trace(tfd, 8000);
         close(tfd);
     }
     static void gdb_dump()
